@@ -74,33 +74,47 @@ Definition progress_of (reset : bool) (ptod pto3 : Z) (te : teff) (w : sendw) (f
   | SrcAck _ => True
   end.
 
-(* ================= 5. the stale _pacing_at: timer_progress fails for the pacing source (reset = false) ===========
+(* ================= the stale _pacing_at: timer_progress fails for the pacing source (reset = false) ===========
 
-   History of a server (the one replayed on the real QuicConnection by docs/C09-repro-pacing.py; times in model units):
-     t=0    the client's Initial arrives (ack-eliciting): spaces created, ack_at[Initial] armed
-     t=0    datagrams_to_send: Initial (ACK + ServerHello) and Handshake flight written and registered; no pacing yet
-     t=10   an Initial packet with an ACK of our Initial arrives: RTT sample -> the pacer has a packet_time
-     t=10   the application has something to send; datagrams_to_send: nothing to write in Initial / Handshake,
-            _write_application consults the pacer: bucket empty -> _pacing_at = 11, break
-     (the anti-amplification budget is now used up: the path is not validated)
-     get_timer() = 11 = _pacing_at  (idle deadline 1010, PTO deadline 300)
-     t=11   handle_timer(11): not the close deadline, _loss_at = 300 > 11: nothing
-     t=11   datagrams_to_send(11): _write_handshake(INITIAL): start_packet raises QuicPacketBuilderStop;
-            _write_application is never reached; _pacing_at keeps 11
-     get_timer() = 11 again, in the same state: the adapter spins until something else happens. *)
+   History of a server whose packets do not reach the client (lost, or the Initial came from a spoofed address); it is
+   the history replayed on the real QuicConnection by docs/C09-repro-pacing.py (model time: 1 = 1 microsecond after
+   T0 + 0.2 s is written 201; T0 = 0, the first PTO = 200):
+     t=0     the client's Initial arrives (ack-eliciting): spaces created, ack_at[Initial] armed; the application queues
+             0.5-RTT stream data
+     t=0     datagrams_to_send: Initial (ACK + ServerHello), Handshake flight and 1-RTT data written; the pacer has no
+             packet_time yet (next_send_time = None); the anti-amplification budget (3 x 1200) is used up
+     t=200   get_timer() = the PTO deadline; handle_timer: PTO, count 1, CRYPTO rescheduled, probe -- and
+             _on_packets_lost gives the pacer a packet_time (update_rate with smoothed_rtt = 0: 1 microsecond)
+     t=200   datagrams_to_send: budget 0, start_packet(INITIAL) raises QuicPacketBuilderStop: nothing
+     t=200   the client's PTO retransmission of its Initial arrives: budget 3600 again
+     t=200   datagrams_to_send: flight again and one 1-RTT packet; second iteration of _write_application: bucket empty,
+             _pacing_at = 201, break
+     t=201   get_timer() = 201 = _pacing_at; handle_timer: nothing; datagrams_to_send: the last 38 bytes of budget go
+             into a 1-RTT packet, then _pacing_at = 202, break
+     t=202   get_timer() = 202 = _pacing_at (idle deadline 60200, PTO deadline 601); handle_timer(202): nothing;
+             datagrams_to_send(202): start_packet(INITIAL) raises QuicPacketBuilderStop (header 28 >= capacity 0);
+             _write_application is never reached; _pacing_at keeps 202
+     get_timer() = 202 again, in the same state: the adapter spins until the client's next datagram or _close_at. *)
 Definition hw_ok : hsw := mkHw true 0 true.
 
 Definition hw_stopped : hsw := mkHw true 1 true.
 
-Definition stale_history : list fop :=
-  [ FReceive 0 1000 [mkFp (PProc 0 None false 1000) 0 [] true 25 false];
-    FSend 0 900 (mkSw true 0 hw_ok hw_ok true [mkAi None false true true] [1; 1; 0] true false);
-    FReceive 10 1000 [mkFp (PProc 0 None false 1000) 0 [EAck (Some (1, None))] false 25 false];
-    FSend 10 900 (mkSw false 0 hw_ok hw_ok true [mkAi (Some 11) false true true] [] false false) ].
-
-Definition stale_send : sendw := mkSw false 0 hw_stopped hw_ok true [mkAi (Some 12) false true true] [] false false.
-
 Definition stale_te : teff := mkTe None [].
+
+Definition stale_history : list fop :=
+  [ FReceive 0 60000 [mkFp (PProc 0 None false 60000) 0 [] true 25 false];
+    FSend 0 900 (mkSw true 0 hw_ok hw_ok true
+                   [mkAi None false true false; mkAi None false true false; mkAi None false true true] [1; 1; 2] true false);
+    FGetTimer 200;
+    FTimer 200 (mkTe None [1; 1; 0]);
+    FSend 200 900 (mkSw false 0 hw_stopped hw_ok true [] [] false false);
+    FReceive 200 60000 [mkFp (PProc 0 None false 60000) 0 [] true 25 false];
+    FSend 200 900 (mkSw true 0 hw_ok hw_ok true [mkAi None false true false; mkAi (Some 201) false true true] [1; 1; 1] true true);
+    FGetTimer 601;
+    FTimer 201 stale_te;
+    FSend 201 900 (mkSw true 0 hw_ok hw_ok true [mkAi None false true false; mkAi (Some 202) false true true] [0; 0; 1] false false) ].
+
+Definition stale_send : sendw := mkSw false 0 hw_stopped hw_ok true [mkAi (Some 203) false true true] [] false false.
 
 Definition stale_loop (ptod v : Z) : list fop := [FTimer v stale_te; FSend v 900 stale_send; FGetTimer ptod].
 
